@@ -435,6 +435,87 @@ func shortFn(f *ssa.Function) string {
 
 func isHookFile(name string) bool { return strings.HasPrefix(filepath.Base(name), "verif_") }
 
+// dispatchTable reads the map literal returned by frundis.<fn>: macro name -> handler function name.
+func dispatchTable(p *packages.Package, fn string) []string {
+	var out []string
+	for _, f := range p.Syntax {
+		for _, d := range f.Decls {
+			fd, ok := d.(*ast.FuncDecl)
+			if !ok || fd.Name.Name != fn || fd.Recv != nil || fd.Body == nil {
+				continue
+			}
+			for _, st := range fd.Body.List {
+				rs, ok := st.(*ast.ReturnStmt)
+				if !ok || len(rs.Results) != 1 {
+					die("%s: unexpected statement shape", fn)
+				}
+				cl, ok := rs.Results[0].(*ast.CompositeLit)
+				if !ok {
+					die("%s: return value is not a composite literal", fn)
+				}
+				for _, e := range cl.Elts {
+					kv, ok := e.(*ast.KeyValueExpr)
+					if !ok {
+						die("%s: element is not key: value", fn)
+					}
+					k, ok1 := kv.Key.(*ast.BasicLit)
+					v, ok2 := kv.Value.(*ast.Ident)
+					if !ok1 || !ok2 || k.Kind != token.STRING {
+						die("%s: key/value shape", fn)
+					}
+					ks, err := strconv.Unquote(k.Value)
+					if err != nil {
+						die("%s: %v", fn, err)
+					}
+					out = append(out, fmt.Sprintf("(%s, %s)", coqStr(ks), coqStr(v.Name)))
+				}
+			}
+		}
+	}
+	if len(out) == 0 {
+		die("%s: not found", fn)
+	}
+	return out
+}
+
+// caseNames collects, in function fn, the string literals L of every comparison `<x>.Name == L` inside case clauses
+// of tagless switches (the names processBlock treats as invisible to rendering), and of `case L1, L2:` clauses of
+// switches on <x>.Name, keyed by the first literal of the enclosing clause list.
+func nameEqLits(p *packages.Package, fn string) []string {
+	var out []string
+	for _, f := range p.Syntax {
+		for _, d := range f.Decls {
+			fd, ok := d.(*ast.FuncDecl)
+			if !ok || fd.Name.Name != fn || fd.Body == nil {
+				continue
+			}
+			ast.Inspect(fd.Body, func(n ast.Node) bool {
+				sw, ok := n.(*ast.SwitchStmt)
+				if !ok || sw.Tag != nil {
+					return true
+				}
+				for _, c := range sw.Body.List {
+					cc := c.(*ast.CaseClause)
+					for _, e := range cc.List {
+						be, ok := e.(*ast.BinaryExpr)
+						if !ok || be.Op != token.EQL {
+							continue
+						}
+						sel, ok1 := be.X.(*ast.SelectorExpr)
+						lit, ok2 := be.Y.(*ast.BasicLit)
+						if ok1 && ok2 && sel.Sel.Name == "Name" && lit.Kind == token.STRING {
+							v, _ := strconv.Unquote(lit.Value)
+							out = append(out, coqStr(v))
+						}
+					}
+				}
+				return true
+			})
+		}
+	}
+	return out
+}
+
 func genFacts(pkgs []*packages.Package, out string) {
 	prog, _ := ssautil.AllPackages(pkgs, ssa.InstantiateGenerics)
 	prog.Build()
@@ -763,6 +844,10 @@ func genFacts(pkgs []*packages.Package, out string) {
 	fmt.Fprintf(&b, "Definition map_range_sites : list string :=\n  %s.\n\n", strList(mapRanges))
 	fmt.Fprintf(&b, "Definition time_rand_sites : list string :=\n  %s.\n\n", strList(timeRand))
 	fmt.Fprintf(&b, "Definition fs_write_sites : list string :=\n  %s.\n\n", strList(fsCalls))
+	fr := findPkg(pkgs, "/frundis")
+	fmt.Fprintf(&b, "(* frundis.DefaultExporterMacros / MinimalExporterMacros: macro name, handler *)\nDefinition dispatch_table : list (string * string) :=\n  [%s].\n\n", strings.Join(dispatchTable(fr, "DefaultExporterMacros"), ";\n   "))
+	fmt.Fprintf(&b, "Definition minimal_dispatch_table : list (string * string) :=\n  [%s].\n\n", strings.Join(dispatchTable(fr, "MinimalExporterMacros"), ";\n   "))
+	fmt.Fprintf(&b, "(* processBlock: macro names that do not become PrevMacro *)\nDefinition invisible_names : list string :=\n  [%s].\n\n", strings.Join(nameEqLits(fr, "processBlock"), "; "))
 	var files []string
 	for f := range perFile {
 		files = append(files, f)
